@@ -62,6 +62,8 @@ type Session struct {
 	authMode auth.Mode
 	nonce    string
 	user     *auth.User
+	wsUser   string // WebSocket 接入时 http 已验证的用户名(启用验证时按它检查权限)
+	wsAuth   bool   // WebSocket 会话且启用了验证
 
 	// DESCRIBE，或 ANNOUNCE 后设置
 	url      *url.URL
@@ -105,10 +107,12 @@ func newSession(svr *Server, conn net.Conn) *Session {
 	}
 
 	if wsc, ok := conn.(websocket.Conn); ok { // 如果是WebSocket，有http进行验证
-		session.authMode = auth.NoneAuth
+		session.wsAuth = session.authMode != auth.NoneAuth // http 只验证了身份和连接路径的拉流权限
+		session.authMode = auth.NoneAuth                   // 无需再做 RTSP 摘要认证
 		session.wsconn = wsc
 		session.path = wsc.Path()
-		session.user = auth.Get(wsc.Username())
+		session.wsUser = wsc.Username()
+		session.user = auth.Get(session.wsUser)
 	}
 
 	// ipaddr, _ := address.Parse(conn.RemoteAddr().String(), 80)
@@ -481,6 +485,12 @@ func (s *Session) onPlay(resp *Response, req *Request) (err error) {
 }
 
 func (s *Session) checkPermission(right auth.AccessRight) bool {
+	if s.wsAuth {
+		// WebSocket 会话：身份已由 http 验证，但每个路径/动作的权限仍需按当前保存的权限检查
+		u := auth.Get(s.wsUser)
+		return u != nil && u.ValidatePermission(s.path, right)
+	}
+
 	if s.authMode == auth.NoneAuth {
 		return true
 	}
@@ -578,7 +588,9 @@ func (s *Session) onPreprocess(resp *Response, req *Request) (continueProcess bo
 		return false, err
 	}
 
-	s.user = user
+	if s.authMode != auth.NoneAuth {
+		s.user = user
+	}
 	return true, nil
 }
 
